@@ -26,6 +26,7 @@ ASSUME = ['compiler/ABI effects of a real big-endian target are out of reach; UB
           'builds (the big-endian paths dereference cast pointers)']
 
 BE_CCS = ['gcc-O1-be', 'clang-O2-be', 'gcc-O0-be', 'clang-O0-be']
+BE_OPT_CCS = ['gcc-O2-be', 'clang-O2-be', 'gcc-O3-be', 'clang-O3-be', 'gcc-O1-be']
 LE_CCS = ['gcc-O1-le', 'clang-O2-le']
 
 
@@ -155,6 +156,45 @@ def make_width(ch, params):
     return m, script, {'nontrivial_fn': nt_be, 'ninst': 1, 'classes': {'width_probe': 1}}
 
 
+@f1.maker('c19_mixed')
+def make_mixed(ch, params):
+    """several stores and loads of DIFFERENT widths over the same few bytes inside ONE function body, so that the C compiler sees
+    them together (a runtime that reaches memory through incompatible pointer types gets its accesses reordered or dropped
+    there at -O2): linear memory must behave as one array of bytes"""
+    m = Module()
+    m.memory = (1, None)
+    m.exports.append((b'mem', 'memory', 0))
+    stores = sorted(wasm.STORES.items())
+    loads = sorted(wasm.LOADS.items())
+    script = [('inst', 0)]
+    nf = 10 + ch.below(8)
+    for fi in range(nf):
+        body = []
+        nst = 2 + ch.below(3)
+        params_t = [I32]
+        for k in range(nst):
+            n, (c, t, nb) = stores[ch.below(len(stores))]
+            params_t.append(t)
+            body += [('local.get', 0), ('local.get', len(params_t) - 1), (n, 0, ch.below(9 - nb))]
+        # loads of other widths over the 8 bytes just written, folded into one i64 result
+        body += [('i64.const', 0)]
+        for k in range(2 + ch.below(3)):
+            n, (c, t, nb, sg) = loads[ch.below(len(loads))]
+            if t not in (I32, I64):
+                continue
+            body += [('local.get', 0), (n, 0, ch.below(9 - nb))]
+            if t == I32:
+                body += [('i64.extend_i32_u',)]
+            body += [('i64.const', 7), ('i64.rotl',), ('i64.xor',)]
+        m.funcs.append(Func(m.type_index(tuple(params_t), (I64,)), [], body))
+        m.exports.append((b'm%d' % fi, 'func', fi))
+        for _ in range(3):
+            base = 64 + 16 * ch.below(8) + ch.below(8)
+            script.append(('call', 0, fi, [base] + gen.gen_args(ch, params_t[1:])))
+            script.append(('dump', 0, base - 4, 20))
+    return m, script, {'nontrivial_fn': nt_be, 'ninst': 1, 'classes': {'mixed_widths_in_one_body': 1}, 'independent': True}
+
+
 def dispatch(wid, seed, params):
     if params.get('const'):
         return const_task(wid, seed, params)
@@ -186,11 +226,13 @@ def plan(tier, seed):
         jobs += [{'maker': 'c19_atomic', 'ncases': n2, 'ccs': BE_CCS + LE_CCS, 'nsteps': 120, 'shrink_budget': 20, 'reduce_budget': 10} for _ in range(10)]
         jobs += [{'maker': 'c19_width', 'ncases': 24, 'ccs': BE_CCS, 'shrink_budget': 20, 'reduce_budget': 10} for _ in range(6)]
         jobs += [{'const': True, 'ncases': 6, 'nconst': 300} for _ in range(6)]
+        jobs += [{'maker': 'c19_mixed', 'ncases': 10, 'ccs': BE_OPT_CCS, 'shrink_budget': 20, 'reduce_budget': 20} for _ in range(6)]
         return jobs
     jobs = [{'maker': 'c19_mem', 'ncases': 150, 'ccs': BE_CCS + LE_CCS, 'nsteps': 300, 'shrink_budget': 30, 'reduce_budget': 20} for _ in range(20)]
     jobs += [{'maker': 'c19_atomic', 'ncases': 150, 'ccs': BE_CCS + LE_CCS, 'nsteps': 300, 'shrink_budget': 30, 'reduce_budget': 20} for _ in range(20)]
     jobs += [{'maker': 'c19_width', 'ncases': 150, 'ccs': BE_CCS, 'shrink_budget': 30, 'reduce_budget': 20} for _ in range(12)]
     jobs += [{'const': True, 'ncases': 100, 'nconst': 600} for _ in range(12)]
+    jobs += [{'maker': 'c19_mixed', 'ncases': 150, 'ccs': BE_OPT_CCS + LE_CCS, 'shrink_budget': 30, 'reduce_budget': 30} for _ in range(12)]
     return jobs
 
 
